@@ -55,6 +55,8 @@ type vc08Case struct {
 	Opts *vc08OptsIn `json:"opts,omitempty"` // kind q: options through ToQuery / FromQuery
 	Raw  [][][]byte  `json:"raw,omitempty"`  // kind qraw: [key, value] pairs of an arbitrary query
 	Old  *vc08OptsIn `json:"old,omitempty"`  // kind qraw: receiver value FromQuery decodes onto
+	Num  int64       `json:"num,omitempty"`  // kinds st, pt, md: the status mask / pin type / pin mode
+	Text []byte      `json:"text,omitempty"` // kind straw: an arbitrary status string
 }
 
 // which universe a token's valid values come from
@@ -540,19 +542,103 @@ func vc08GenQRaw(r *vRand) vc08Case {
 	return c
 }
 
+// ---------------------------------------------------------------- names of statuses, types, modes
+func vc08RunNames(out *vOut, c vc08Case) {
+	switch c.Kind {
+	case "st":
+		m := c.Num
+		if m < 0 {
+			m = -m
+		}
+		s := TrackerStatus(m).String()
+		back := TrackerStatusFromString(s)
+		out.count("st")
+		out.add(fmt.Sprintf("CStatus %d %s %d", m, vc08Str(s), int64(back)), c, []interface{}{s, int64(back)}, m&(m-1) != 0)
+	case "straw":
+		back := TrackerStatusFromString(string(c.Text))
+		if back < 0 {
+			panic("negative status")
+		}
+		out.count("straw")
+		out.add(fmt.Sprintf("CStatusRaw %s %d", vc08Str(string(c.Text)), int64(back)), c, int64(back), true)
+	case "pt":
+		t := uint64(c.Num)
+		s := PinType(t).String()
+		back := PinTypeFromString(s)
+		out.count("pt")
+		out.add(fmt.Sprintf("CPinType %d %s %d", t, vc08Str(s), uint64(back)), c, []interface{}{s, uint64(back)}, true)
+	case "md":
+		s := PinMode(c.Num).String()
+		back := PinModeFromString(s)
+		out.count("md")
+		out.add(fmt.Sprintf("CModeStr %s %s %s", vc08Z(c.Num), vc08Str(s), vc08Z(int64(back))), c, []interface{}{s, int64(back)}, true)
+	}
+}
+
+var vc08StNames = []string{"undefined", "cluster_error", "pin_error", "unpin_error", "error", "pinned", "pinning", "unpinning", "unpinned",
+	"remote", "pin_queued", "unpin_queued", "queued", "sharded", "unexpectedly_unpinned", "", "Pinned", "pin error", "junk", "pin_", "errors"}
+
+func vc08GenNames(r *vRand) vc08Case {
+	switch x := r.intn(100); {
+	case x < 55:
+		var m int64
+		switch y := r.intn(100); {
+		case y < 45:
+			m = int64(r.intn(4096)) * 2 // masks of defined bits
+		case y < 60:
+			m = int64(1) << uint(r.rng(1, 12))
+		case y < 70:
+			m = []int64{14, 1536, 14 | 1536, 14 | 16, 6, 12, 10, 512, 1024, 1536 | 2048, 8190, 0}[r.intn(12)]
+		case y < 80:
+			m = int64(r.intn(8192)) // bit 0 may be set
+		default:
+			m = int64(r.next() >> uint(r.rng(2, 50))) // undefined high bits
+		}
+		return vc08Case{Kind: "st", Num: m}
+	case x < 80:
+		n := r.rng(0, 4)
+		parts := []string{}
+		for i := 0; i < n; i++ {
+			p := vc08StNames[r.intn(len(vc08StNames))]
+			if r.chance(15) {
+				p = " " + p
+			}
+			if r.chance(10) {
+				p = p + " "
+			}
+			parts = append(parts, p)
+		}
+		sep := ","
+		if r.chance(10) {
+			sep = ", "
+		}
+		if r.chance(5) {
+			sep = ";"
+		}
+		return vc08Case{Kind: "straw", Text: []byte(strings.Join(parts, sep))}
+	case x < 92:
+		t := []int64{1, 2, 4, 8, 16, 30, 0, 3, 32, 6, 31, 1 << 40}[r.intn(12)]
+		return vc08Case{Kind: "pt", Num: t}
+	default:
+		return vc08Case{Kind: "md", Num: int64(r.rng(-1, 3))}
+	}
+}
+
 func vc08Gen(r *vRand) vc08Case {
 	switch x := r.intn(100); {
-	case x < 35:
+	case x < 30:
 		p := vc08GenPin(r, r.chance(35))
 		return vc08Case{Kind: "pb", Pin: &p}
-	case x < 55:
+	case x < 45:
 		m := vc08GenMsg(r)
 		return vc08Case{Kind: "pbmsg", Msg: &m}
-	case x < 75:
+	case x < 60:
 		o := vc08GenOpts(r, r.chance(30))
 		return vc08Case{Kind: "q", Opts: &o}
-	default:
+	case x < 75:
 		return vc08GenQRaw(r)
+	default:
+		return vc08GenNames(r)
 	}
 }
 
@@ -573,6 +659,8 @@ func vc08Run(out *vOut, c vc08Case) {
 			}
 		case "qraw":
 			vc08RunQRaw(out, c)
+		case "st", "straw", "pt", "md":
+			vc08RunNames(out, c)
 		}
 	})
 }
